@@ -425,16 +425,23 @@ def normalize(got, want, runstate=None):
         want = re.sub(r'\s', '', want, flags=re.MULTILINE)
 
     if runstate['NORMALIZE_REPR']:
-        def norm_repr(a, b):
+        def norm_repr(a, b, a_is_got):
             # If removing quotes would allow for a match, remove them.
-            if not _check_match(a, b, runstate):
+            def _matches(a_, b_):
+                # The match is directed (an ellipsis is only a wildcard in
+                # the want), so always pass (got, want) in that order.
+                if a_is_got:
+                    return _check_match(a_, b_, runstate)
+                else:
+                    return _check_match(b_, a_, runstate)
+            if not _matches(a, b):
                 for q in ['"', "'"]:
                     if a.startswith(q) and a.endswith(q):
-                        if _check_match(a[1:-1], b, runstate):
+                        if _matches(a[1:-1], b):
                             return a[1:-1]
             return a
-        got = norm_repr(got, want)
-        want = norm_repr(want, got)
+        got = norm_repr(got, want, a_is_got=True)
+        want = norm_repr(want, got, a_is_got=False)
 
     return got, want
 
